@@ -537,14 +537,23 @@ func classify(o *harnessOutcome, ld *loaded, known []KnownFinding, scratch strin
 		o.status = "inconclusive"
 		o.why = append(o.why, "no feasible path (vacuous harness)")
 	}
-	// group violations by signature, replay one representative per signature
-	seen := map[string]bool{}
+	// group violations by signature; replay candidates of a signature in the order found
+	// until one reproduces (a step harness may reject a pre-state natively as unreachable,
+	// the next counterexample of the same assertion may start from a reachable one)
+	const maxCandidates = 12
+	tried := map[string]int{}
+	done := map[string]bool{}
+	firstSpur := map[string]vrec{}
+	var sigOrder []string
 	for _, v := range r.Violations {
 		sig := v.Harness + "|" + v.AssertID + "|" + tagString(v.Tags)
-		if seen[sig] {
+		if done[sig] || tried[sig] >= maxCandidates {
 			continue
 		}
-		seen[sig] = true
+		if tried[sig] == 0 {
+			sigOrder = append(sigOrder, sig)
+		}
+		tried[sig]++
 		rec := vrec{v: v}
 		rec.replay = writeReplay(prop, o, v)
 		if noReplay {
@@ -555,14 +564,22 @@ func classify(o *harnessOutcome, ld *loaded, known []KnownFinding, scratch strin
 			rec.repro = replayNative(ld, rec.replay, scratch)
 		}
 		if rec.repro == "not-reproduced" {
-			o.spur = append(o.spur, rec)
+			if _, ok := firstSpur[sig]; !ok {
+				firstSpur[sig] = rec
+			}
 			continue
 		}
+		done[sig] = true
 		if k := matchKnown(known, prop, v); k != nil {
 			rec.known = k
 			o.knownV = append(o.knownV, rec)
 		} else {
 			o.newV = append(o.newV, rec)
+		}
+	}
+	for _, sig := range sigOrder {
+		if !done[sig] {
+			o.spur = append(o.spur, firstSpur[sig])
 		}
 	}
 	if len(o.spur) > 0 {
